@@ -184,7 +184,7 @@ pub fn p5() {
 }
 #[kani::proof]
 #[kani::unwind(6)]
-#[kani::stub(std::alloc::realloc, crate::stubs::realloc_is_out_of_bound)]
+#[kani::stub(alloc::alloc::realloc_nonnull, crate::stubs::realloc_is_out_of_bound)]
 pub fn p6() {
    let (mut delta, mut total) = (Ix1::default(), Ix1::default());
    let cd = fill1::<2>(&mut delta);
@@ -211,3 +211,197 @@ pub fn p7() {
    kani::cover!(true);
    std::mem::forget((total, delta));
 }
+fn get_cnt(ix: &Ix1, q: u8) -> [u8;3] {
+   let mut got = [0u8; 3];
+   if let Some(it) = ix.index_get(&(q,)) { for v in it { got[v.0 as usize] += 1; } }
+   got
+}
+#[kani::proof]
+#[kani::unwind(6)]
+pub fn s1() { // one table, 4 slots
+   let mut total = Ix1::default();
+   let ct = fill1::<4>(&mut total);
+   let q = any_d();
+   let got = get_cnt(&total, q);
+   for v in 0..3 { assert!(got[v] == ct[q as usize][v]); }
+   std::mem::forget(total);
+}
+#[kani::proof]
+#[kani::unwind(6)]
+pub fn s2() { // two tables, 2 slots each, separate lookups
+   let (mut delta, mut total) = (Ix1::default(), Ix1::default());
+   let cd = fill1::<2>(&mut delta);
+   let ct = fill1::<2>(&mut total);
+   let q = any_d();
+   let got = get_cnt(&total, q);
+   for v in 0..3 { assert!(got[v] == ct[q as usize][v]); }
+   let got = get_cnt(&delta, q);
+   for v in 0..3 { assert!(got[v] == cd[q as usize][v]); }
+   std::mem::forget((total, delta));
+}
+#[kani::proof]
+#[kani::unwind(6)]
+pub fn s3() { // two tables, 2 slots each, only one looked up
+   let (mut delta, mut total) = (Ix1::default(), Ix1::default());
+   let cd = fill1::<2>(&mut delta);
+   let ct = fill1::<2>(&mut total);
+   let q = any_d();
+   let got = get_cnt(&total, q);
+   for v in 0..3 { assert!(got[v] == ct[q as usize][v]); }
+   std::mem::forget((total, delta));
+}
+#[kani::proof]
+#[kani::unwind(4)]
+pub fn e1() {
+   let (mut new, mut delta) = (Ix1::default(), Ix1::default());
+   let cn = fill1::<2>(&mut new);
+   crate::stubs::mem_swap(&mut new, &mut delta);
+   let q = any_d();
+   let got = get_cnt(&delta, q);
+   for v in 0..3 { assert!(got[v] == cn[q as usize][v]); }
+   kani::cover!(true);
+   std::mem::forget((new, delta));
+}
+#[kani::proof]
+#[kani::unwind(4)]
+pub fn e2() {
+   let mut new = Ix1::default();
+   let cn = fill1::<2>(&mut new);
+   let delta = new;
+   let q = any_d();
+   let got = get_cnt(&delta, q);
+   for v in 0..3 { assert!(got[v] == cn[q as usize][v]); }
+   kani::cover!(true);
+   std::mem::forget(delta);
+}
+#[kani::proof]
+#[kani::unwind(4)]
+#[kani::stub(std::time::Instant::now, crate::stubs::instant_now)]
+#[kani::stub(std::time::Instant::elapsed, crate::stubs::instant_elapsed)]
+#[kani::stub(std::mem::swap, crate::stubs::mem_swap)]
+pub fn e3() {
+   let (mut new, mut delta, mut total) = (Ix1::default(), Ix1::default(), Ix1::default());
+   let cn = fill1::<2>(&mut new);
+   RelIndexMerge::merge_delta_to_total_new_to_delta(&mut new, &mut delta, &mut total);
+   let q = any_d();
+   let got = get_cnt(&delta, q);
+   for v in 0..3 { assert!(got[v] == cn[q as usize][v]); }
+   kani::cover!(true);
+   std::mem::forget((new, delta, total));
+}
+#[kani::proof]
+#[kani::unwind(4)]
+#[kani::stub(std::time::Instant::now, crate::stubs::instant_now)]
+#[kani::stub(std::time::Instant::elapsed, crate::stubs::instant_elapsed)]
+#[kani::stub(std::mem::swap, crate::stubs::mem_swap)]
+pub fn e4() {
+   let (mut new, mut delta, mut total) = (Ix1::default(), Ix1::default(), Ix1::default());
+   let cn = fill1::<2>(&mut new);
+   let cd = fill1::<1>(&mut delta);
+   RelIndexMerge::merge_delta_to_total_new_to_delta(&mut new, &mut delta, &mut total);
+   let q = any_d();
+   let got = get_cnt(&delta, q);
+   for v in 0..3 { assert!(got[v] == cn[q as usize][v]); }
+   kani::cover!(true);
+   std::mem::forget((new, delta, total));
+}
+#[kani::proof]
+#[kani::unwind(4)]
+#[kani::stub(std::time::Instant::now, crate::stubs::instant_now)]
+#[kani::stub(std::time::Instant::elapsed, crate::stubs::instant_elapsed)]
+#[kani::stub(std::mem::swap, crate::stubs::mem_swap)]
+#[kani::stub(alloc::alloc::realloc_nonnull, crate::stubs::realloc_is_out_of_bound)]
+#[kani::stub(std::vec::Vec::append, crate::stubs::vec_append)]
+pub fn e5() {
+   let (mut new, mut delta, mut total) = (Ix1::default(), Ix1::default(), Ix1::default());
+   let cn = fill1::<2>(&mut new);
+   let cd = fill1::<1>(&mut delta);
+   RelIndexMerge::merge_delta_to_total_new_to_delta(&mut new, &mut delta, &mut total);
+   let q = any_d();
+   let got = get_cnt(&total, q);
+   for v in 0..3 { assert!(got[v] == cd[q as usize][v]); }
+   kani::cover!(true);
+   std::mem::forget((new, delta, total));
+}
+#[kani::proof]
+#[kani::unwind(4)]
+#[kani::stub(std::time::Instant::now, crate::stubs::instant_now)]
+#[kani::stub(std::time::Instant::elapsed, crate::stubs::instant_elapsed)]
+#[kani::stub(std::mem::swap, crate::stubs::mem_swap)]
+#[kani::stub(alloc::alloc::realloc_nonnull, crate::stubs::realloc_is_out_of_bound)]
+#[kani::stub(std::vec::Vec::append, crate::stubs::vec_append)]
+pub fn e6() {
+   let (mut new, mut delta, mut total) = (Ix1::default(), Ix1::default(), Ix1::default());
+   let cd = fill1::<1>(&mut delta);
+   let ct = fill1::<1>(&mut total);
+   RelIndexMerge::merge_delta_to_total_new_to_delta(&mut new, &mut delta, &mut total);
+   let q = any_d();
+   let got = get_cnt(&total, q);
+   for v in 0..3 { assert!(got[v] == cd[q as usize][v] + ct[q as usize][v]); }
+   kani::cover!(true);
+   std::mem::forget((new, delta, total));
+}
+#[kani::proof]
+#[kani::unwind(4)]
+pub fn f1() {
+   let mut total = Ix1::default();
+   let ct = fill1::<2>(&mut total);
+   let q = any_d();
+   if let Some(v) = total.get_mut(&(q,)) {
+      let mut w: Vec<(u8,)> = Vec::with_capacity(4);
+      w.push((1,));
+      crate::stubs::mem_swap(&mut w, v);
+      std::mem::forget(w);
+   }
+   let q2 = any_d();
+   let got = get_cnt(&total, q2);
+   if q2 != q { for v in 0..3 { assert!(got[v] == ct[q2 as usize][v]); } }
+   kani::cover!(true);
+   std::mem::forget(total);
+}
+fn mic<const SWAP: bool, const OCC: u8>(from: &mut Ix1, to: &mut Ix1) {
+   use ascent::hashbrown::hash_map::Entry::*;
+   if SWAP && from.len() > to.len() {
+      crate::stubs::mem_swap(from, to);
+   }
+   for (k, mut v) in from.drain() {
+      match to.entry(k) {
+         Occupied(existing) => {
+            let existing = existing.into_mut();
+            if OCC == 0 || OCC == 2 {
+               if v.len() > existing.len() {
+                  crate::stubs::mem_swap(&mut v, existing);
+               }
+            }
+            if OCC == 0 || OCC == 3 {
+               crate::stubs::vec_append(existing, &mut v);
+            }
+            if OCC != 0 { std::mem::forget(v); }
+         },
+         Vacant(vacant) => {
+            vacant.insert(v);
+         },
+      }
+   }
+}
+macro_rules! mic_h { ($name:ident, $swap:literal, $occ:literal) => {
+#[kani::proof]
+#[kani::unwind(4)]
+#[kani::stub(alloc::alloc::realloc_nonnull, crate::stubs::realloc_is_out_of_bound)]
+pub fn $name() {
+   let (mut delta, mut total) = (Ix1::default(), Ix1::default());
+   let cd = fill1::<1>(&mut delta);
+   let ct = fill1::<1>(&mut total);
+   mic::<$swap, $occ>(&mut delta, &mut total);
+   let q = any_d();
+   let got = get_cnt(&total, q);
+   if $occ == 0 { for v in 0..3 { assert!(got[v] == cd[q as usize][v] + ct[q as usize][v]); } }
+   kani::cover!(true);
+   std::mem::forget((delta, total));
+} } }
+mic_h!(g_noswap_full, false, 0);
+mic_h!(g_swap_full, true, 0);
+mic_h!(g_swap_nothing, true, 1);
+mic_h!(g_swap_swaponly, true, 2);
+mic_h!(g_swap_appendonly, true, 3);
+mic_h!(g_noswap_nothing, false, 1);
